@@ -103,6 +103,8 @@ class Sys(e2.DevSys):
                 acts += [("ann-stop",), ("stop+find", 0), ("stop+find", 1), ("connlost",)]
             else:
                 acts += [("ann-start",)]
+        elif c.get("lifecycle"):
+            acts += [("ann-stop",), ("connlost",)] if self.started else [("ann-start",)]
         return acts
 
     def ready(self, n, t):
@@ -180,6 +182,12 @@ class Sys(e2.DevSys):
                     continue
                 expected.append((n, lo, hi + c, "must"))
         got = list(uni)
+        for g in list(got):
+            # nothing may be answered during an initial wait phase, not even a request from before a restart
+            if self.started and self.run_start > 0 and self.run_start - r <= g[0] < self.run_start + self.d - r:
+                got.remove(g)
+                self.viol("answer", "during-initial-wait", f"unicast offer {g[:2]} left during the initial wait phase that "
+                          f"began at {self.run_start} (first offer due at {self.run_start + self.d}); finds {self.finds}")
         for n, lo, hi, mode in expected:
             spec = self.specs[n]
             hit = None
@@ -198,7 +206,8 @@ class Sys(e2.DevSys):
             if e[4] != cfg["ttl"] or e[5] != spec[3] or e[6] != want_opts or e[7] != ():
                 self.viol("answer", "content", f"instance {spec[:4]} answered with {e}")
             ok = lo - r <= t <= hi + r
-            if ok and first and c:
+            if ok and first and c and mode == "must":
+                # (an answer still in the send collector when the instance stops is flushed: earlier is fine)
                 ok = abs(t - hi) < r
             if not ok:
                 self.viol("answer", "time", f"instance {spec[:4]}: answer on the wire at {t}, expected "
@@ -262,6 +271,9 @@ def restrict(thorough, cfg, devs, p, k):
             return p[2][0] in ("ann-stop", "connlost") and p[0] - devs[0][0] <= 0.1
         return False
     if k == 3:
+        if [d[2][0] for d in devs] == ["find", "ann-stop"]:
+            # restart while the answer to an earlier request is still pending
+            return p[2][0] == "ann-start" and p[0] - devs[1][0] <= 0.07
         return [d[2][0] for d in devs] == ["ann-stop", "ann-start"] and p[2][0] == "find" and p[0] - devs[1][0] <= 0.4
     return False
 
